@@ -3,6 +3,7 @@
 import json, os, re, sys
 sys.path.insert(0, os.path.dirname(os.path.abspath(__file__)))
 from common import *
+from u1000_common import coq_cases_noglob
 
 ck = Check("C17", level="proof")
 broken = []
@@ -48,7 +49,7 @@ shards = 12
 args = [exe, "-work", work, "-out", prefix, "-seed", str(ck.seed), "-shards", str(shards), "-staticcheck", sc,
         "-testdata", os.path.join(REPO, "unused/testdata/src/example.com")]
 if ck.thorough():
-    args += ["-gen", "1500", "-perms", "3", "-mono", "3", "-cperms", "3", "-cmono", "3", "-variants", "30", "-maxnodes", "30000",
+    args += ["-gen", "300", "-perms", "3", "-mono", "2", "-cperms", "2", "-cmono", "2", "-variants", "20", "-maxnodes", "9000",
              "-corpus", REPO + ":./unused+./pattern+./config+./lintcmd/...+./analysis/...+./go/ir+./staticcheck/..."]
 else:
     args += ["-gen", "30", "-perms", "2", "-mono", "1", "-cperms", "1", "-cmono", "1", "-variants", "5", "-maxnodes", "2500",
@@ -59,6 +60,8 @@ if rc != 0 or not os.path.exists(prefix + ".json"):
     bail("harness-run", "harness run failed: " + out[-400:], out)
 data = json.load(open(prefix + ".json"))
 stats = data["Stats"]
+if stats.get("analyzer_failed", 0) * 4 > stats.get("generated", 0) + stats.get("corpus", 0):
+    broken.append(("harness", "the analyzer failed on %d packages" % stats.get("analyzer_failed", 0)))
 ck.log("harness done", stats, [l for l in out.splitlines() if l.startswith("[hc17")])
 
 HDR = """From Coq Require Import List NArith String. Import ListNotations.
@@ -84,7 +87,7 @@ Print X.
 Print Y.
 Print V.
 """
-res = ck.coq_cases_parallel(files, timeout=3000, jobs=8)
+res = coq_cases_noglob(ck, files, timeout=3000, jobs=12)
 ck.log("cases evaluated")
 
 bundles = {(b["Shard"], b["Index"]): b for b in data["Bundles"]}
